@@ -799,8 +799,7 @@ Lemma step_other_frame : forall c s x,
   last_obs (fst (step c s x)) = last_obs s /\ pending (fst (step c s x)) = pending s /\
   effects (fst (step c s x)) = effects s.
 Proof.
-  intros c s x H. destruct x; cbn [step]; try contradiction;
-    try (pose proof (mature_core s) as [[A _] [_ [B [C _]]]]; auto; fail).
+  intros c s x H. destruct x; cbn [step]; try contradiction.
   - pose proof (bond_core c s o bridger ext stake) as [[A _] [_ [B C]]]. auto.
   - pose proof (add_core c s o amount) as [[A _] [_ [B C]]]. auto.
   - pose proof (slash_core s os) as [[A _] [_ [B C]]]. auto.
@@ -808,6 +807,7 @@ Proof.
   - pose proof (gov_core s os) as [[A _] [_ [B C]]]. auto.
   - pose proof (unbond_core c s o) as [[A _] [B C]]. auto.
   - pose proof (edit_core s o b) as [[A _] [_ [B C]]]. auto.
+  - pose proof (mature_core s) as [[A _] [_ [B [C _]]]]. auto.
 Qed.
 
 Lemma inv_exec_step : forall c s x, inv_exec s -> inv_exec (fst (step c s x)).
@@ -1005,15 +1005,23 @@ Proof.
   destruct (aget keq (n, cl) (atts s)) eqn:G; [right; eauto | contradiction].
 Qed.
 
-Lemma inv_votes_vote_atts : forall s n cl o,
-  inv_votes s -> n = cursor s o + 1 ->
+Lemma cursor_ge_entry : forall c s o e, aget Z.eqb o (last_by s) = Some e -> e <= cursor c s o.
+Proof.
+  intros c s o e G. unfold cursor. rewrite G.
+  destruct (c_cursor_clamp c && (1 <=? last_obs s) && (e <? last_obs s - 1)) eqn:E; [|lia].
+  apply andb_true_iff in E. destruct E as [_ E]. apply Z.ltb_lt in E. lia.
+Qed.
+
+Lemma inv_votes_vote_atts : forall c s n cl o,
+  inv_votes s -> n = cursor c s o + 1 ->
   forall k a, aget keq k (aset keq (n, cl) (cast s n cl o) (atts s)) = Some a ->
   (forall v, In v (a_votes a) -> exists e, aget Z.eqb v (aset Z.eqb o n (last_by s)) = Some e /\ fst k <= e)
   /\ NoDup (a_votes a).
 Proof.
-  intros s n cl o [I1 I2] Hn k a G.
+  intros c s n cl o [I1 I2] Hn k a G.
   assert (CUR : forall k0 a0, aget keq k0 (atts s) = Some a0 -> In o (a_votes a0) -> fst k0 < n).
-  { intros k0 a0 G0 Hin. destruct (I1 _ _ _ G0 Hin) as [e [Ge Le]]. unfold cursor in Hn. rewrite Ge in Hn. lia. }
+  { intros k0 a0 G0 Hin. destruct (I1 _ _ _ G0 Hin) as [e [Ge Le]].
+    pose proof (cursor_ge_entry c s o e Ge). lia. }
   destruct (keq (n, cl) k) eqn:E.
   - apply keq_spec in E. subst k. rewrite (aget_aset_same keq keq_spec) in G. inversion G; subst a. split.
     + intros v Hv. cbn [fst]. destruct (Z.eq_dec o v) as [D|D].
@@ -1031,14 +1039,18 @@ Proof.
     + rewrite (aget_aset_other Z.eqb zeqb_spec) by exact D. apply (I1 _ _ _ G Hv).
 Qed.
 
-Lemma inv_votes_step : forall c s x, inv_votes s -> safe_unbond s x -> inv_votes (fst (step c s x)).
+(* the step preserves the invariant if the code keeps the cursor on unbond (repaired variant), or if the
+   operation is not an Unbond of an oracle with a stored vote *)
+Definition safe_votes (c : cfg) (s : st) (x : op) : Prop := c_unbond_del c = false \/ safe_unbond s x.
+
+Lemma inv_votes_step : forall c s x, inv_votes s -> safe_votes c s x -> inv_votes (fst (step c s x)).
 Proof.
   intros c s x IH SF. destruct x; cbn [step].
   - pose proof (vote_cases c s bridger nonce cls park members) as V. vote_inv V.
     + rewrite Hs. exact IH.
     + unfold inv_votes. rewrite Hat, Hlb. split.
-      * intros k a v G Hv. destruct (inv_votes_vote_atts s nonce cls o IH Hn k a G) as [A _]. auto.
-      * intros k a G. destruct (inv_votes_vote_atts s nonce cls o IH Hn k a G) as [_ B]. auto.
+      * intros k a v G Hv. destruct (inv_votes_vote_atts c s nonce cls o IH Hn k a G) as [A _]. auto.
+      * intros k a G. destruct (inv_votes_vote_atts c s nonce cls o IH Hn k a G) as [_ B]. auto.
     + unfold inv_votes. rewrite Hat, Hlb.
       assert (F : forall k a, aget keq k (prune nonce (aset keq (nonce, cls) {| a_obs := true; a_votes := a_votes (cast s nonce cls o) |}
                                  (aset keq (nonce, cls) (cast s nonce cls o) (atts s)))) = Some a ->
@@ -1049,35 +1061,66 @@ Proof.
         - apply keq_neq in E. rewrite (aget_aset_other keq keq_spec) in G by exact E. eauto. }
       split.
       * intros k a v G Hv. destruct (F _ _ G) as [a0 [G0 EV]]. rewrite EV in Hv.
-        destruct (inv_votes_vote_atts s nonce cls o IH Hn k a0 G0) as [A _]. auto.
+        destruct (inv_votes_vote_atts c s nonce cls o IH Hn k a0 G0) as [A _]. auto.
       * intros k a G. destruct (F _ _ G) as [a0 [G0 EV]]. rewrite EV.
-        destruct (inv_votes_vote_atts s nonce cls o IH Hn k a0 G0) as [_ B]. auto.
+        destruct (inv_votes_vote_atts c s nonce cls o IH Hn k a0 G0) as [_ B]. auto.
   - destruct (exec_core s nonce handler_ok) as [[_ [A _]] B]. unfold inv_votes. rewrite A, B. exact IH.
   - destruct (bond_core c s o bridger ext stake) as [[_ [A _]] [B _]]. unfold inv_votes. rewrite A, B. exact IH.
   - destruct (add_core c s o amount) as [[_ [A _]] [B _]]. unfold inv_votes. rewrite A, B. exact IH.
   - destruct (slash_core s os) as [[_ [A _]] [B _]]. unfold inv_votes. rewrite A, B. exact IH.
   - exact IH.
   - destruct (gov_core s os) as [[_ [A _]] [B _]]. unfold inv_votes. rewrite A, B. exact IH.
-  - (* unbond: only of a non-voter *)
-    cbn [safe_unbond] in SF. unfold unbond. dm; prj; try exact IH.
+  - (* unbond: the cursor is kept, or the oracle has no stored vote *)
+    unfold unbond. destruct (zmem o (proposal s)); prj; [exact IH|].
+    destruct (aget Z.eqb o (oracles s)) as [rec|]; prj; [|exact IH].
+    destruct (o_online rec); prj; [exact IH|]. destruct (o_unb rec); prj; [exact IH|].
+    destruct (c_unbond_del c) eqn:D; [|destruct IH as [I1 I2]; split; prj; assumption].
+    unfold safe_votes in SF. destruct SF as [SF|SF]; [congruence|]. cbn [safe_unbond] in SF.
     destruct IH as [I1 I2]. split; prj; [|exact I2].
     intros k a v G Hv. destruct (I1 _ _ _ G Hv) as [e [Ge Le]].
     assert (o <> v). { intro; subst. apply SF. exists k, a. auto. }
     rewrite (aget_adel_other Z.eqb zeqb_spec) by assumption. eauto.
   - destruct (edit_core s o b) as [[_ [A _]] [B _]]. unfold inv_votes. rewrite A, B. exact IH.
+  - cbn [fst]. destruct (mature_core s) as [[_ [A _]] [B _]]. unfold inv_votes. rewrite A, B. exact IH.
+Qed.
+
+Lemma guarded_weaken : forall c (safe1 safe2 : st -> op -> Prop),
+  (forall s x, safe1 s x -> safe2 s x) -> forall h s, guarded c safe1 s h -> guarded c safe2 s h.
+Proof.
+  intros c safe1 safe2 W h. induction h as [|x r IH]; intros s G; cbn in *; auto.
+  destruct G as [G1 G2]. split; auto.
+Qed.
+
+Lemma guarded_all : forall c (safe : st -> op -> Prop), (forall s x, safe s x) -> forall h s, guarded c safe s h.
+Proof. intros c safe A h. induction h as [|x r IH]; intro s; cbn; auto. Qed.
+
+Lemma inv_votes_reach : forall c h, guarded c (safe_votes c) init h -> inv_votes (run c init h).
+Proof.
+  intros c h G. apply (run_inv_guarded inv_votes (safe_votes c) c).
+  - intros. apply inv_votes_step; assumption.
+  - split; [intros ? ? ? F; discriminate F | intros ? ? F; discriminate F].
+  - exact G.
 Qed.
 
 Theorem votes_distinct_guarded : forall c h k a,
   guarded c safe_unbond init h ->
   aget keq k (atts (run c init h)) = Some a -> NoDup (a_votes a).
 Proof.
-  intros c h k a G.
+  intros c h k a G Ha.
   assert (I : inv_votes (run c init h)).
-  { apply (run_inv_guarded inv_votes safe_unbond c).
-    - intros. apply inv_votes_step; assumption.
-    - split; [intros ? ? ? F; discriminate F | intros ? ? F; discriminate F].
-    - exact G. }
-  intro Ha. destruct I as [_ I2]. eapply I2; eauto.
+  { apply inv_votes_reach. eapply guarded_weaken; [|exact G]. intros s x S. right. exact S. }
+  destruct I as [_ I2]. eapply I2; eauto.
+Qed.
+
+(* the repaired code (UnbondedOracle keeps the per-oracle cursor): no guard needed, for every history *)
+Theorem votes_distinct_fixed : forall c h k a,
+  c_unbond_del c = false ->
+  aget keq k (atts (run c init h)) = Some a -> NoDup (a_votes a).
+Proof.
+  intros c h k a F Ha.
+  assert (I : inv_votes (run c init h)).
+  { apply inv_votes_reach. apply guarded_all. intros s x. left. exact F. }
+  destruct I as [_ I2]. eapply I2; eauto.
 Qed.
 
 (* the quorum bound in terms of the DISTINCT registered voters, for guarded histories *)
@@ -1085,7 +1128,7 @@ Theorem quorum_distinct_guarded : forall c h b n cl park ms,
   0 <= c_threshold c ->
   guarded c safe_unbond init (h ++ [Vote b n cl park ms]) ->
   let s := run c init h in
-  let s' := fst (vote s b n cl park ms) in
+  let s' := fst (vote c s b n cl park ms) in
   last_obs s' <> last_obs s ->
   exists a, aget keq (n, cl) (atts s') = Some a /\ a_obs a = true /\ NoDup (a_votes a) /\
             66 * last_total s <= 100 * dpower (oracles s) (a_votes a) + 99.
@@ -1094,6 +1137,22 @@ Proof.
   destruct (quorum_at_flip c h b n cl park ms Hc H) as [a [Ga [Oa Q]]].
   assert (ND : NoDup (a_votes a)).
   { apply (votes_distinct_guarded c (h ++ [Vote b n cl park ms]) (n, cl) a G).
+    rewrite run_snoc. exact Ga. }
+  exists a. repeat split; auto. unfold dpower. rewrite nodup_id by exact ND. exact Q.
+Qed.
+
+Theorem quorum_distinct_fixed : forall c h b n cl park ms,
+  0 <= c_threshold c -> c_unbond_del c = false ->
+  let s := run c init h in
+  let s' := fst (vote c s b n cl park ms) in
+  last_obs s' <> last_obs s ->
+  exists a, aget keq (n, cl) (atts s') = Some a /\ a_obs a = true /\ NoDup (a_votes a) /\
+            66 * last_total s <= 100 * dpower (oracles s) (a_votes a) + 99.
+Proof.
+  intros c h b n cl park ms Hc F s s' H.
+  destruct (quorum_at_flip c h b n cl park ms Hc H) as [a [Ga [Oa Q]]].
+  assert (ND : NoDup (a_votes a)).
+  { apply (votes_distinct_fixed c (h ++ [Vote b n cl park ms]) (n, cl) a F).
     rewrite run_snoc. exact Ga. }
   exists a. repeat split; auto. unfold dpower. rewrite nodup_id by exact ND. exact Q.
 Qed.
@@ -1140,6 +1199,47 @@ Proof.
   destruct (o =? w); reflexivity.
 Qed.
 
+Fixpoint incr (l : list Z) : Prop :=
+  match l with
+  | a :: (b :: _) as r => a < b /\ incr r
+  | _ => True
+  end.
+
+Lemma incr_snoc : forall l n, incr l -> (l <> [] -> last l 0 < n) -> incr (l ++ [n]).
+Proof.
+  induction l as [|a r IH]; intros n C H; [cbn; auto|].
+  destruct r as [|b r'].
+  - cbn. split; auto. apply H. discriminate.
+  - destruct C as [C1 C2]. change ((a :: b :: r') ++ [n]) with (a :: ((b :: r') ++ [n])).
+    change (incr (a :: (b :: r') ++ [n])) with (a < b /\ incr ((b :: r') ++ [n])).
+    split; auto. apply IH; auto. intros _. apply H. discriminate.
+Qed.
+
+Lemma incr_lt : forall r a x, incr (a :: r) -> In x r -> a < x.
+Proof.
+  induction r as [|b r IH]; intros a x C H; [contradiction|].
+  destruct C as [C1 C2]. destruct H as [H|H]; [lia|]. specialize (IH b x C2 H). lia.
+Qed.
+
+Lemma incr_NoDup : forall l, incr l -> NoDup l.
+Proof.
+  induction l as [|a r IH]; intro C; constructor.
+  - intro H. pose proof (incr_lt r a a C H). lia.
+  - apply IH. destruct r; [exact I | apply C].
+Qed.
+
+Lemma consec_incr : forall l, consec l -> incr l.
+Proof.
+  induction l as [|a r IH]; intro C; [exact I|]. destruct r as [|b r']; [exact I|].
+  destruct C as [C1 C2]. split; [lia | apply IH; exact C2].
+Qed.
+
+(* strictly increasing nonces per oracle: holds for every variant of the code *)
+Definition inv_incr (w : Z) (s : st) : Prop :=
+  incr (nonces_of w (vlog s)) /\
+  (nonces_of w (vlog s) <> [] -> exists e, aget Z.eqb w (last_by s) = Some e /\ last (nonces_of w (vlog s)) 0 <= e).
+
+(* consecutive nonces per oracle: the code without the cursor lift *)
 Definition inv_contig (w : Z) (s : st) : Prop :=
   consec (nonces_of w (vlog s)) /\
   (nonces_of w (vlog s) <> [] -> aget Z.eqb w (last_by s) = Some (last (nonces_of w (vlog s)) 0)).
@@ -1147,68 +1247,142 @@ Definition inv_contig (w : Z) (s : st) : Prop :=
 Definition no_unbond_of (w : Z) (_ : st) (x : op) : Prop :=
   match x with Unbond o => o <> w | _ => True end.
 
-Lemma inv_contig_vote : forall w s s' o n,
-  inv_contig w s -> n = cursor s o + 1 ->
-  vlog s' = vlog s ++ [(o, n)] -> last_by s' = aset Z.eqb o n (last_by s) -> inv_contig w s'.
+(* the cursor of w survives the step: the code keeps cursors on unbond, or the step is not Unbond w *)
+Definition safe_cursor (c : cfg) (w : Z) (s : st) (x : op) : Prop := c_unbond_del c = false \/ no_unbond_of w s x.
+
+Lemma cursor_noclamp : forall c s o e, c_cursor_clamp c = false -> aget Z.eqb o (last_by s) = Some e -> cursor c s o = e.
+Proof. intros c s o e F G. unfold cursor. rewrite G, F. reflexivity. Qed.
+
+Lemma inv_incr_vote : forall c w s s' o n,
+  inv_incr w s -> n = cursor c s o + 1 ->
+  vlog s' = vlog s ++ [(o, n)] -> last_by s' = aset Z.eqb o n (last_by s) -> inv_incr w s'.
 Proof.
-  intros w s s' o n [C E] Hn Hvl Hlb. unfold inv_contig. rewrite Hvl, Hlb, nonces_of_snoc.
+  intros c w s s' o n [C E] Hn Hvl Hlb. unfold inv_incr. rewrite Hvl, Hlb, nonces_of_snoc.
   destruct (o =? w) eqn:D.
   - apply Z.eqb_eq in D. subst o. split.
-    + apply consec_snoc; auto. intro NE. unfold cursor in Hn. rewrite (E NE) in Hn. exact Hn.
+    + apply incr_snoc; auto. intro NE. destruct (E NE) as [e [Ge Le]].
+      pose proof (cursor_ge_entry c s w e Ge). lia.
+    + intros _. rewrite last_last. exists n. split; [apply (aget_aset_same Z.eqb zeqb_spec) | lia].
+  - apply Z.eqb_neq in D. rewrite app_nil_r. split; auto.
+    intro NE. rewrite (aget_aset_other Z.eqb zeqb_spec) by exact D. auto.
+Qed.
+
+Lemma inv_contig_vote : forall c w s s' o n,
+  c_cursor_clamp c = false ->
+  inv_contig w s -> n = cursor c s o + 1 ->
+  vlog s' = vlog s ++ [(o, n)] -> last_by s' = aset Z.eqb o n (last_by s) -> inv_contig w s'.
+Proof.
+  intros c w s s' o n F [C E] Hn Hvl Hlb. unfold inv_contig. rewrite Hvl, Hlb, nonces_of_snoc.
+  destruct (o =? w) eqn:D.
+  - apply Z.eqb_eq in D. subst o. split.
+    + apply consec_snoc; auto. intro NE. rewrite (cursor_noclamp c s w _ F (E NE)) in Hn. exact Hn.
     + intros _. rewrite last_last. apply (aget_aset_same Z.eqb zeqb_spec).
   - apply Z.eqb_neq in D. rewrite app_nil_r. split; auto.
     intro NE. rewrite (aget_aset_other Z.eqb zeqb_spec) by exact D. auto.
 Qed.
 
-Lemma inv_contig_step : forall w c s x, inv_contig w s -> no_unbond_of w s x -> inv_contig w (fst (step c s x)).
+(* both invariants only mention vlog and last_by; one frame lemma serves both *)
+Lemma cursor_frame_step : forall c w s x,
+  safe_cursor c w s x ->
+  match x with Vote _ _ _ _ _ => True | _ =>
+    vlog (fst (step c s x)) = vlog s /\ aget Z.eqb w (last_by (fst (step c s x))) = aget Z.eqb w (last_by s)
+  end.
 Proof.
-  intros w c s x IH SF. destruct x; cbn [step].
-  - pose proof (vote_cases c s bridger nonce cls park members) as V. vote_inv V.
-    + rewrite Hs. exact IH.
-    + eapply inv_contig_vote; eauto.
-    + eapply inv_contig_vote; eauto.
-  - destruct (exec_core s nonce handler_ok) as [[_ [_ [_ A]]] B]. unfold inv_contig. rewrite A, B. exact IH.
-  - destruct (bond_core c s o bridger ext stake) as [[_ [_ [_ A]]] [B _]]. unfold inv_contig. rewrite A, B. exact IH.
-  - destruct (add_core c s o amount) as [[_ [_ [_ A]]] [B _]]. unfold inv_contig. rewrite A, B. exact IH.
-  - destruct (slash_core s os) as [[_ [_ [_ A]]] [B _]]. unfold inv_contig. rewrite A, B. exact IH.
-  - exact IH.
-  - destruct (gov_core s os) as [[_ [_ [_ A]]] [B _]]. unfold inv_contig. rewrite A, B. exact IH.
-  - cbn [no_unbond_of] in SF. unfold unbond. dm; prj; try exact IH.
-    destruct IH as [C E]. split; prj; auto.
-    intro NE. rewrite (aget_adel_other Z.eqb zeqb_spec) by exact SF. auto.
-  - destruct (edit_core s o b) as [[_ [_ [_ A]]] [B _]]. unfold inv_contig. rewrite A, B. exact IH.
+  intros c w s x SF. destruct x; cbn [step]; auto.
+  - destruct (exec_core s nonce handler_ok) as [[_ [_ [_ A]]] B]. rewrite A, B. auto.
+  - destruct (bond_core c s o bridger ext stake) as [[_ [_ [_ A]]] [B _]]. rewrite A, B. auto.
+  - destruct (add_core c s o amount) as [[_ [_ [_ A]]] [B _]]. rewrite A, B. auto.
+  - destruct (slash_core s os) as [[_ [_ [_ A]]] [B _]]. rewrite A, B. auto.
+  - destruct (gov_core s os) as [[_ [_ [_ A]]] [B _]]. rewrite A, B. auto.
+  - unfold unbond. destruct (zmem o (proposal s)); prj; auto.
+    destruct (aget Z.eqb o (oracles s)) as [rec|]; prj; auto.
+    destruct (o_online rec); prj; auto. destruct (o_unb rec); prj; auto.
+    destruct (c_unbond_del c) eqn:D; auto. split; auto.
+    unfold safe_cursor in SF. destruct SF as [SF|SF]; [congruence|]. cbn [no_unbond_of] in SF.
+    apply (aget_adel_other Z.eqb zeqb_spec). exact SF.
+  - destruct (edit_core s o b) as [[_ [_ [_ A]]] [B _]]. rewrite A, B. auto.
 Qed.
 
+Lemma inv_incr_step : forall w c s x, inv_incr w s -> safe_cursor c w s x -> inv_incr w (fst (step c s x)).
+Proof.
+  intros w c s x IH SF. pose proof (cursor_frame_step c w s x SF) as Fr. destruct x;
+    try (destruct Fr as [A B]; unfold inv_incr; rewrite A, B; exact IH).
+  cbn [step]. pose proof (vote_cases c s bridger nonce cls park members) as V. vote_inv V.
+  - rewrite Hs. exact IH.
+  - eapply inv_incr_vote; eauto.
+  - eapply inv_incr_vote; eauto.
+Qed.
+
+Lemma inv_contig_step : forall w c s x, c_cursor_clamp c = false ->
+  inv_contig w s -> safe_cursor c w s x -> inv_contig w (fst (step c s x)).
+Proof.
+  intros w c s x F IH SF. pose proof (cursor_frame_step c w s x SF) as Fr. destruct x;
+    try (destruct Fr as [A B]; unfold inv_contig; rewrite A, B; exact IH).
+  cbn [step]. pose proof (vote_cases c s bridger nonce cls park members) as V. vote_inv V.
+  - rewrite Hs. exact IH.
+  - eapply inv_contig_vote; eauto.
+  - eapply inv_contig_vote; eauto.
+Qed.
+
+(* every variant: strictly increasing, hence no second vote for a nonce *)
+Theorem votes_increasing : forall c h w,
+  guarded c (safe_cursor c w) init h ->
+  incr (nonces_of w (vlog (run c init h))) /\ NoDup (nonces_of w (vlog (run c init h))).
+Proof.
+  intros c h w G.
+  assert (I : inv_incr w (run c init h)).
+  { apply (run_inv_guarded (inv_incr w) (safe_cursor c w) c).
+    - intros. apply inv_incr_step; assumption.
+    - split; [exact Logic.I | intro F; exfalso; apply F; reflexivity].
+    - exact G. }
+  destruct I as [C _]. split; auto. apply incr_NoDup. exact C.
+Qed.
+
+(* the code without the cursor lift: consecutive (no skipped nonce either) *)
 Theorem votes_contiguous : forall c h w,
+  c_cursor_clamp c = false ->
   guarded c (no_unbond_of w) init h ->
   consec (nonces_of w (vlog (run c init h))) /\ NoDup (nonces_of w (vlog (run c init h))).
 Proof.
-  intros c h w G.
+  intros c h w F G.
   assert (I : inv_contig w (run c init h)).
-  { apply (run_inv_guarded (inv_contig w) (no_unbond_of w) c).
+  { apply (run_inv_guarded (inv_contig w) (safe_cursor c w) c).
     - intros. apply inv_contig_step; assumption.
-    - split; [exact Logic.I | intro F; exfalso; apply F; reflexivity].
-    - exact G. }
+    - split; [exact Logic.I | intro E; exfalso; apply E; reflexivity].
+    - eapply guarded_weaken; [|exact G]. intros s x S. right. exact S. }
   destruct I as [C _]. split; auto. apply consec_NoDup. exact C.
+Qed.
+
+(* the repaired code: for EVERY history and every oracle — no oracle ever has two accepted votes for one nonce *)
+Theorem votes_increasing_fixed : forall c h w,
+  c_unbond_del c = false ->
+  incr (nonces_of w (vlog (run c init h))) /\ NoDup (nonces_of w (vlog (run c init h))).
+Proof.
+  intros c h w F. apply votes_increasing. apply guarded_all. intros s x. left. exact F.
 Qed.
 
 (* ------------------------------------------------------------------ *)
 (* refutations (concrete witnesses, replayed on the real keeper by harness/c01) *)
 (* ------------------------------------------------------------------ *)
 Definition fx (n : Z) : Z := n * 1000000000000000000.
-Definition cfg0 : cfg := {| c_threshold := fx 10000; c_multiple := 10; c_slashfrac := 800000000000000000 |}.
+(* the code in which UnbondedOracle deletes the cursor (finding C01-1) and the repaired code *)
+Definition cfg0 : cfg := {| c_threshold := fx 10000; c_multiple := 10; c_slashfrac := 800000000000000000;
+                            c_unbond_del := true; c_cursor_clamp := false |}.
+Definition cfg_fixed : cfg := {| c_threshold := fx 10000; c_multiple := 10; c_slashfrac := 800000000000000000;
+                                 c_unbond_del := false; c_cursor_clamp := true |}.
 
-(* four equal oracles; 0 and 1 vote for (nonce 1, class 1); 0 is removed by governance, unbonds (which deletes
-   its per-oracle cursor), is approved and bonds again, and votes again on the still pending attestation *)
+(* four equal oracles; 0 and 1 vote for (nonce 1, class 1); 0 is removed by governance, its unbonding matures,
+   it unbonds (which deletes its per-oracle cursor), is approved and bonds again, and votes again on the still
+   pending attestation *)
 Definition h_rebond : list op :=
   [GovSet [0; 1; 2; 3];
    Bond 0 0 0 (fx 25000); Bond 1 1 1 (fx 25000); Bond 2 2 2 (fx 25000); Bond 3 3 3 (fx 25000);
    Vote 0 1 1 true []; Vote 1 1 1 true [];
-   GovSet [1; 2; 3]; Unbond 0; GovSet [0; 1; 2; 3]; Bond 0 0 0 (fx 25000);
+   GovSet [1; 2; 3]; Mature; Unbond 0; GovSet [0; 1; 2; 3]; Bond 0 0 0 (fx 25000);
    Vote 0 1 1 true []].
 
 Theorem revote_refuted :
-  exists c h, 0 <= c_threshold c /\
+  exists c h, 0 <= c_threshold c /\ c_unbond_del c = true /\
     let s := run c init h in
     exists a, aget keq (1, 1) (atts s) = Some a /\ a_obs a = true /\ last_obs s = 1 /\
               a_votes a = [0; 1; 0] /\                                     (* oracle 0 is in the vote list twice *)
@@ -1216,9 +1390,16 @@ Theorem revote_refuted :
               last_total s = 1000 /\ dpower (oracles s) (a_votes a) = 500 /\
               100 * dpower (oracles s) (a_votes a) + 99 < 66 * last_total s. (* 50 % of the power was enough *)
 Proof.
-  exists cfg0, h_rebond. split; [vm_compute; discriminate|].
+  exists cfg0, h_rebond. split; [vm_compute; discriminate|]. split; [reflexivity|].
   vm_compute. eexists. repeat split; reflexivity.
 Qed.
+
+(* the same history on the repaired code: the second vote is refused, the event stays pending *)
+Theorem revote_refused_when_fixed :
+  let s := run cfg_fixed init h_rebond in
+  last_obs s = 0 /\ nonces_of 0 (vlog s) = [1] /\
+  exists a, aget keq (1, 1) (atts s) = Some a /\ a_obs a = false /\ a_votes a = [0; 1].
+Proof. vm_compute. repeat split; try reflexivity. eexists. repeat split; reflexivity. Qed.
 
 (* truncation of 66*total/100: powers 100, 231, 172 (total 503): the bar is 331 (331.98 truncated);
    oracles 0 and 1 hold 331 = 65.8 % *)
@@ -1241,25 +1422,25 @@ Qed.
 (* ------------------------------------------------------------------ *)
 (* transaction layer: required signer versus counted bridger             *)
 (* ------------------------------------------------------------------ *)
-Theorem claim_tx_accept : forall unpacked chk s signers t,
-  snd (deliver_claim unpacked chk s signers t) = Ok ->
+Theorem claim_tx_accept : forall c unpacked chk s signers t,
+  snd (deliver_claim c unpacked chk s signers t) = Ok ->
   In (required_signer t) signers /\
   exists o rec, aget Z.eqb (t_inner t) (by_bridger s) = Some o /\ aget Z.eqb o (oracles s) = Some rec /\
                 o_online rec = true /\
-                In (o, t_nonce t) (vlog (fst (deliver_claim unpacked chk s signers t))).
+                In (o, t_nonce t) (vlog (fst (deliver_claim c unpacked chk s signers t))).
 Proof.
-  intros unpacked chk s signers t H. unfold deliver_claim in *.
+  intros c unpacked chk s signers t H. unfold deliver_claim in *.
   destruct (negb (validate_basic unpacked chk t)); [discriminate|].
   destruct (zmem (required_signer t) signers) eqn:Z; cbn [negb] in *; [|discriminate].
   split; [apply zmem_In; exact Z|].
-  destruct (vote_accept_online _ _ _ _ _ _ H) as [o [rec [A [B [C [_ D]]]]]]. eauto 10.
+  destruct (vote_accept_online _ _ _ _ _ _ _ H) as [o [rec [A [B [C0 [_ D]]]]]]. eauto 10.
 Qed.
 
 (* with the wrapper = wrapped bridger check in place, the bridger a vote is counted for had to sign *)
-Theorem signer_guarded : forall unpacked s signers t,
-  snd (deliver_claim unpacked true s signers t) = Ok -> In (t_inner t) signers.
+Theorem signer_guarded : forall c unpacked s signers t,
+  snd (deliver_claim c unpacked true s signers t) = Ok -> In (t_inner t) signers.
 Proof.
-  intros unpacked s signers t H. pose proof (claim_tx_accept _ _ _ _ _ H) as [A _].
+  intros c unpacked s signers t H. pose proof (claim_tx_accept _ _ _ _ _ _ H) as [A _].
   unfold deliver_claim, validate_basic in H.
   destruct unpacked; cbn [andb negb] in H; [|discriminate].
   destruct (t_inner_valid t); cbn [andb negb orb] in H; [|discriminate].
@@ -1268,7 +1449,7 @@ Proof.
 Qed.
 
 (* the code as it is: a transaction decoded from bytes never gets past ValidateBasic *)
-Theorem bytes_path_rejects : forall s signers t, deliver_claim_bytes s signers t = (s, Err E_Invalid).
+Theorem bytes_path_rejects : forall c s signers t, deliver_claim_bytes c s signers t = (s, Err E_Invalid).
 Proof. intros. reflexivity. Qed.
 
 (* the code as it is, once the message carries its value: account 300 (bridger of nobody) is the only signer;
@@ -1283,12 +1464,12 @@ Theorem signer_refuted :
   exists c h signers,
     let s0 := run c init h in
     (forall b o, aget Z.eqb b (by_bridger s0) = Some o -> ~ In b signers) /\   (* no registered bridger signs *)
-    let s1 := fst (deliver_claim_mem s0 signers (forged 0)) in
-    let s2 := fst (deliver_claim_mem s1 signers (forged 1)) in
-    let s3 := fst (deliver_claim_mem s2 signers (forged 2)) in
-    snd (deliver_claim_mem s0 signers (forged 0)) = Ok /\
-    snd (deliver_claim_mem s1 signers (forged 1)) = Ok /\
-    snd (deliver_claim_mem s2 signers (forged 2)) = Ok /\
+    let s1 := fst (deliver_claim_mem c s0 signers (forged 0)) in
+    let s2 := fst (deliver_claim_mem c s1 signers (forged 1)) in
+    let s3 := fst (deliver_claim_mem c s2 signers (forged 2)) in
+    snd (deliver_claim_mem c s0 signers (forged 0)) = Ok /\
+    snd (deliver_claim_mem c s1 signers (forged 1)) = Ok /\
+    snd (deliver_claim_mem c s2 signers (forged 2)) = Ok /\
     last_obs s0 = 0 /\ last_obs s3 = 1 /\
     vlog s3 = [(0, 1); (1, 1); (2, 1)].
 Proof.
